@@ -141,6 +141,7 @@ type step struct {
 	outs         []*message.Message
 	err          error
 	errDesc      string
+	errTags      []string // errshapes classes: wrapper shapes / near-listed texts this error is made of
 	pv           any
 	pvDesc       string
 	runtimePanic bool
@@ -185,6 +186,8 @@ type scenario struct {
 	valMode  bool       // values classes: handler results with unusual Go values (values.go)
 	shared   *sharedEnv // concurrent classes: the chain is built once and called from several goroutines (concurrent.go)
 	yields   int        // concurrent classes: runtime.Gosched() calls of the handler between producing and returning
+	errMode  bool       // errshapes classes: handler errors in every wrapper shape around listed / unlisted errors (errshape.go)
+	nilCause bool       // errshapes/nil-cause: errors of a Cause()-capable type without a cause
 }
 
 func (sc *scenario) shape() chainShape {
@@ -310,10 +313,12 @@ func genPanic(r *vlib.Rand, bases []error) (v any, desc string, rt bool) {
 
 // genOpts: the zero value plus ctxMode draws exactly what the chain / ctx-replace classes always drew.
 type genOpts struct {
-	ctxMode bool
-	valMode bool    // unusual Go values as handler results (values.go)
-	noWait  bool    // never let the handler wait for a Timeout deadline
-	layers  []layer // use this already parametrised chain (concurrent classes: one wrapped handler, many messages)
+	ctxMode  bool
+	valMode  bool    // unusual Go values as handler results (values.go)
+	noWait   bool    // never let the handler wait for a Timeout deadline
+	layers   []layer // use this already parametrised chain (concurrent classes: one wrapped handler, many messages)
+	errMode  bool    // handler errors in every wrapper shape around listed / unlisted errors (errshape.go)
+	nilCause bool    // with errMode: also errors of a Cause()-capable type whose Cause() returns nil
 }
 
 func genScenario(r *vlib.Rand, id string, shape chainShape, ctxMode bool) *scenario {
@@ -322,7 +327,7 @@ func genScenario(r *vlib.Rand, id string, shape chainShape, ctxMode bool) *scena
 
 func genScenarioOpts(r *vlib.Rand, id string, shape chainShape, o genOpts) *scenario {
 	ctxMode := o.ctxMode
-	sc := &scenario{id: id, ctxMode: ctxMode, valMode: o.valMode}
+	sc := &scenario{id: id, ctxMode: ctxMode, valMode: o.valMode, errMode: o.errMode, nilCause: o.nilCause}
 	bases := baseErrors()
 	var pool *valPool
 	if o.valMode {
@@ -380,6 +385,10 @@ func genScenarioOpts(r *vlib.Rand, id string, shape chainShape, o genOpts) *scen
 				// listed errors of non-comparable dynamic types / a nil-valued typed error (matched by text, as all are)
 				l.List = append(l.List, pool.listable(r)...)
 			}
+			if o.errMode && r.Chance(0.6) {
+				// entries whose text is the full text of a wrapper around a listed / unlisted base error
+				l.List = append(l.List, errShapeTraps(r, bases)...)
+			}
 			for _, e := range l.List {
 				l.listed[e.Error()] = true
 			}
@@ -424,6 +433,12 @@ func genScenarioOpts(r *vlib.Rand, id string, shape chainShape, o genOpts) *scen
 		}
 		return outs
 	}
+	errCut, okCut := 55, 82
+	var listedErrs []error
+	if o.errMode {
+		errCut, okCut = 72, 90
+		listedErrs = listedOf(sc.chain)
+	}
 	for i := 0; i < sc.maxCalls; i++ {
 		var st step
 		x := r.Intn(100)
@@ -434,9 +449,11 @@ func genScenarioOpts(r *vlib.Rand, id string, shape chainShape, o genOpts) *scen
 			if r.Bool() {
 				st.outs = mkOuts(r.Intn(3))
 			}
-		case x < 55:
+		case x < errCut:
 			st.Kind = "err"
-			if pool != nil && r.Chance(0.75) {
+			if o.errMode && r.Chance(0.9) {
+				st.err, st.errDesc, st.errTags = genErrShape(r, bases, listedErrs, o.nilCause)
+			} else if pool != nil && r.Chance(0.75) {
 				st.err, st.errDesc = genErrVal(r, bases, pool)
 			} else {
 				st.err, st.errDesc = genErr(r, bases)
@@ -444,7 +461,7 @@ func genScenarioOpts(r *vlib.Rand, id string, shape chainShape, o genOpts) *scen
 			if r.Chance(0.6) {
 				st.outs = mkOuts(r.Intn(4))
 			}
-		case x < 82:
+		case x < okCut:
 			st.Kind = "ok"
 			st.outs = mkOuts(r.Intn(4))
 		default:
@@ -632,7 +649,9 @@ func (m *model) eval(i int) mOut {
 		return o
 	case kIgnore:
 		o := m.eval(i + 1)
-		if !o.panicked && o.err != nil && l.listed[pkgerrors.Cause(o.err).Error()] {
+		// listed = the text of the error's pkg/errors Cause (Cause() methods only) is the text of a list entry:
+		// what the unchanged source does (errshape.go)
+		if !o.panicked && o.err != nil && listedByCause(l.listed, o.err) {
 			o.err = nil
 			m.eff["ignored"]++
 		}
@@ -1062,6 +1081,9 @@ func (p *prep) judge(res *vlib.Result, oc vlib.Outcome, dump string) runStats {
 	stats.events = 1 + rr.calls + len(outSnaps)
 	fail := func(clause, format string, args ...any) {
 		if !res.Failed() {
+			if sc.nilCause {
+				clause = "ignore-nil-cause"
+			}
 			res.Fail(clause, "%s | %s", fmt.Sprintf(format, args...), sc.describe())
 			res.Witness = map[string]any{"chain": sc.chainStr(), "script": sc.scriptStr(), "model_result": mo.String(), "model_calls": m.calls, "real_calls": rr.calls,
 				"real_err": fmt.Sprint(rr.err), "real_panicked": rr.panicked, "real_outs": len(rr.outs), "ctx_err_after": fmt.Sprint(in.Context().Err())}
@@ -1391,6 +1413,11 @@ func runChainsOpts(e *vlib.Env, class string, shapes []chainShape, scriptsPer in
 					effTotalVal[k] += v
 				}
 			}
+			if sc.errMode {
+				for k, v := range errShapeStats(sc) {
+					effTotalVal[k] += v
+				}
+			}
 			n++
 			res.Events += st.events
 			for k, v := range st.eff {
@@ -1431,6 +1458,10 @@ func runChainsOpts(e *vlib.Env, class string, shapes []chainShape, scriptsPer in
 	if o.valMode {
 		// values classes: at least one unusual value went through a middleware
 		res.NonTrivial = eff > 0 && valN > 0
+	}
+	if o.errMode {
+		// errshapes classes: at least one wrapped / near-listed error was judged by an IgnoreErrors layer
+		res.NonTrivial = eff > 0 && effTotalVal["errshape_wrapped_or_near_listed"] > 0
 	}
 	if ctxMode {
 		// ctx-replace classes: at least one context replacement was made inside at least one middleware
